@@ -14,18 +14,18 @@ def toV2 (p : Psbt) : Psbt := { p with version := Gen.Combine.PSBT_V2 }
 def isRequiredLock (l : Loc) : Bool :=
   l.sec == .inp && (l.name == "required_time_lock_time" || l.name == "required_height_lock_time")
 
+/-- the fields of the version 0 psbt `to_v0` makes, `lt` being the lock time computed from the inputs -/
+def v0Slot (p : Psbt) (lt : Int) (l : Loc) : Slot :=
+  if l = fallbackLoc then .scalar (some (.int lt))
+  else if l = modLoc then .scalar none
+  else if isRequiredLock l then .scalar none
+  else p.slot l
+
 /-- `Psbt.to_v0`: the computed lock time becomes the fallback, the required ones and the flags go. -/
 def toV0 (p : Psbt) : Except Err Psbt :=
   match lockTime p with
   | .error e => .error e
-  | .ok lt => .ok
-    { p with
-      version := Gen.Combine.PSBT_V0
-      slot := fun l =>
-        if l = fallbackLoc then .scalar (some (.int lt))
-        else if l = modLoc then .scalar none
-        else if isRequiredLock l then .scalar none
-        else p.slot l }
+  | .ok lt => .ok { p with version := Gen.Combine.PSBT_V0, slot := v0Slot p lt }
 
 /-- `_assert_signatures_added_only`, one field -/
 def addedOnly : Slot → Slot → Bool
